@@ -10,6 +10,8 @@ Variable lookup : lookup_fn.
 (* well-formed dictionary: a phrase has one character per syllable of its key; no empty key *)
 Hypothesis lookup_len : forall syms p, In p (lookup syms) -> length (fst p) = length syms.
 Hypothesis lookup_nil : lookup [] = [].
+(* Syllable::to_string: the text find_best_phrase falls back to for a syllable without any word *)
+Variable spell : N -> list N.
 Variable c : composition.
 (* compositions built from the public operations (Proofs/CompositionProofs: wf_comp is preserved by
    every operation) whose selections are phrases for syllable ranges *)
@@ -17,13 +19,19 @@ Hypothesis Wc : wf_comp c.
 Hypothesis sel_len : Forall (fun s => length (itext s) = ie s - ib s) (selections c).
 Hypothesis sel_syl : forall sel k, In sel (selections c) -> ib sel <= k < ie sel ->
   exists s, nth_error (symbols c) k = Some (SymSyl s).
+(* the property's "dictionary that has at least one word per syllable": every syllable of the buffer
+   has a word under the engine's lookup strategy.  (Since fix e6644f0 a syllable WITHOUT any word -
+   left behind by a switch from fuzzy to standard lookup, or by removing its only word - is shown
+   by its spelling instead of crashing the conversion; such an edge has more than one character
+   and is outside this property's quantifier.) *)
+Hypothesis has_word : forall s, In (SymSyl s) (symbols c) -> lookup [SymSyl s] <> [].
 
 (* every edge of the interval graph built by find_best_phrase / find_intervals is well-formed:
    non-empty, in range, no break strictly inside, no partial overlap with a selection, agrees with
    every contained selection, a non-syllable symbol is a single unchanged character, one
    character per covered symbol *)
-Theorem C03_graph_edges : forall g, In g (find_intervals lookup c) -> edge_ok c g.
-Proof. exact (graph_edges_ok lookup lookup_len lookup_nil c Wc sel_len sel_syl). Qed.
+Theorem C03_graph_edges : forall g, In g (find_intervals spell lookup c) -> edge_ok c g.
+Proof. exact (graph_edges_ok lookup lookup_len lookup_nil spell c Wc sel_len sel_syl has_word). Qed.
 
 (* EVERY 0->len path through the graph - hence every alternative any ranking returns, for the
    Chewing and the Fuzzy engine - glues (glue_fn) into intervals that start at 0, are contiguous,
@@ -31,16 +39,16 @@ Proof. exact (graph_edges_ok lookup lookup_len lookup_nil c Wc sel_len sel_syl).
    intervals cover syllables only, character intervals are the unchanged symbol, no break inside,
    selections respected) *)
 Theorem C03_every_path_tiles : forall p,
-  path_ok (find_intervals lookup c) 0 (clen c) p = true ->
+  path_ok (find_intervals spell lookup c) 0 (clen c) p = true ->
   let ivs := glue_path c (map edge_interval p) in
   contiguous 0 (clen c) ivs = true /\ Forall (iv_ok c) ivs.
-Proof. exact (every_path_tiles lookup lookup_len lookup_nil c Wc sel_len sel_syl). Qed.
+Proof. exact (every_path_tiles lookup lookup_len lookup_nil spell c Wc sel_len sel_syl has_word). Qed.
 
 (* whatever segmentation the implementation returned, once accepted by the model's checker
    (run on EVERY logged conversion by the correspondence check), is such a tiling *)
-Theorem C03_validated_conversion_tiles : forall ivs, symbols c <> [] -> valid_conversion lookup c ivs = true ->
+Theorem C03_validated_conversion_tiles : forall ivs, symbols c <> [] -> valid_conversion spell lookup c ivs = true ->
   contiguous 0 (clen c) ivs = true /\ Forall (iv_ok c) ivs.
-Proof. exact (valid_conversion_tiles lookup lookup_len lookup_nil c Wc sel_len sel_syl). Qed.
+Proof. exact (valid_conversion_tiles lookup lookup_len lookup_nil spell c Wc sel_len sel_syl has_word). Qed.
 
 (* non-syllable symbols appear unchanged at their own position in the pre-edit string, which is
    the concatenation of the interval texts (display_of = flat_map itext by definition) *)
@@ -74,7 +82,7 @@ Definition ex_comp : composition :=
   mkComp [SymSyl 100%N; SymSyl 100%N; SymChar 65%N; SymSyl 100%N] [GBegin; GNormal; GNormal; GNormal]
          [mkIv 0 2 true [30001%N; 30002%N]].
 Example C03_nonvacuous :
-  exists p, path_ok (find_intervals ex_lookup ex_comp) 0 (clen ex_comp) p = true /\
+  exists p, path_ok (find_intervals (fun _ => []) ex_lookup ex_comp) 0 (clen ex_comp) p = true /\
             display_of (glue_path ex_comp (map edge_interval p)) = [30001%N; 30002%N; 65%N; 30000%N].
 Proof.
   exists [mkEdge 0 2 (PPhrase [30001%N; 30002%N] 9%N); mkEdge 2 3 (PSym (SymChar 65%N)); mkEdge 3 4 (PPhrase [30000%N] 5%N)].
